@@ -126,35 +126,53 @@ theorem idx_modify_ensure (l : List (Addr × Counters)) (a : Addr) (d : Counters
       rw [List.map_append, hm]
       simp [toGenRepMap]
 
-/-- the `for client in stats` loop, for any body that does what the generated one does -/
+/-- the `for client in stats` loop, for any body that does what the generated one does to the reporter; the second
+    component of the loop state (the `num_processed` counter, which only feeds a log line) may be changed by the body in
+    any way whatsoever -/
 theorem inner_loop (body : Gen.ClientStats → Gen.Reporter × Nat → Res (Rs.Step (Gen.Reporter × Nat)))
     (hbody : ∀ (a : Addr) (d : Counters) (acc : List (Addr × Counters)) (sq : List (List Gen.ClientStats)) (n : Nat),
       (acc.map (·.1)).Nodup →
-      body (toGenClient a d) (⟨sq, toGenRepMap acc⟩, n) =
-        .ok (.next (⟨sq, toGenRepMap (PerClient.upsert acc a (fun c => c.merge d))⟩, n + 1)))
+      ∃ n', body (toGenClient a d) (⟨sq, toGenRepMap acc⟩, n) =
+        .ok (.next (⟨sq, toGenRepMap (PerClient.upsert acc a (fun c => c.merge d))⟩, n')))
     (snap acc : List (Addr × Counters)) (sq : List (List Gen.ClientStats)) (n : Nat)
     (h : (acc.map (·.1)).Nodup) :
-    Rs.forList (toGenSnap snap) (⟨sq, toGenRepMap acc⟩, n) body =
-      .ok (⟨sq, toGenRepMap (mergeSnap acc snap)⟩, n + snap.length) := by
+    ∃ n', Rs.forList (toGenSnap snap) (⟨sq, toGenRepMap acc⟩, n) body =
+      .ok (⟨sq, toGenRepMap (mergeSnap acc snap)⟩, n') := by
   induction snap generalizing acc n with
-  | nil => rfl
+  | nil => exact ⟨n, rfl⟩
   | cons p rest ih =>
-    unfold toGenSnap at ih ⊢
-    rw [List.map_cons, Rs.forList_cons, hbody p.1 p.2 acc sq n h]
+    obtain ⟨n1, h1⟩ := hbody p.1 p.2 acc sq n h
+    obtain ⟨n2, h2⟩ := ih _ n1 (upsert_keys_nodup acc p.1 _ h)
+    refine ⟨n2, ?_⟩
+    unfold toGenSnap at h2 ⊢
+    rw [List.map_cons, Rs.forList_cons, h1]
     simp only []
-    rw [ih _ _ (upsert_keys_nodup acc p.1 _ h)]
-    simp only [mergeSnap, List.foldl_cons, List.length_cons]
-    congr 2
-    omega
+    rw [h2]
+    simp only [mergeSnap, List.foldl_cons]
 
-/-- the `while let Some(stats) = queue.pop()` loop, for any condition / body that do what the generated ones do -/
+/-- the inner loop followed by the rest of the outer loop's body `k`: it is `k` on the merged map and some counter -/
+theorem inner_loop_bind {β : Type} (body : Gen.ClientStats → Gen.Reporter × Nat → Res (Rs.Step (Gen.Reporter × Nat)))
+    (hbody : ∀ (a : Addr) (d : Counters) (acc : List (Addr × Counters)) (sq : List (List Gen.ClientStats)) (n : Nat),
+      (acc.map (·.1)).Nodup →
+      ∃ n', body (toGenClient a d) (⟨sq, toGenRepMap acc⟩, n) =
+        .ok (.next (⟨sq, toGenRepMap (PerClient.upsert acc a (fun c => c.merge d))⟩, n')))
+    (k : Gen.Reporter × Nat → Res β)
+    (snap acc : List (Addr × Counters)) (sq : List (List Gen.ClientStats)) (n : Nat)
+    (h : (acc.map (·.1)).Nodup) :
+    ∃ n', (Rs.forList (toGenSnap snap) (⟨sq, toGenRepMap acc⟩, n) body).bind k =
+      k (⟨sq, toGenRepMap (mergeSnap acc snap)⟩, n') := by
+  obtain ⟨n', hn'⟩ := inner_loop body hbody snap acc sq n h
+  exact ⟨n', by rw [hn', Res.bind_ok]⟩
+
+/-- the `while let Some(stats) = queue.pop()` loop, for any condition / body that do what the generated ones do to the
+    reporter (whatever they do to the counter) -/
 theorem outer_loop (c : Gen.Reporter × Nat → Res Bool) (f : Gen.Reporter × Nat → Res (Rs.Step (Gen.Reporter × Nat)))
     (hc : ∀ s, c s = .ok true)
-    (hnil : ∀ m n, f (⟨[], m⟩, n) = .ok (.brk (⟨[], m⟩, n)))
+    (hnil : ∀ m n, ∃ n', f (⟨[], m⟩, n) = .ok (.brk (⟨[], m⟩, n')))
     (hcons : ∀ (snap : List (Addr × Counters)) (sq : List (List Gen.ClientStats)) (acc : List (Addr × Counters)) (n : Nat),
       (acc.map (·.1)).Nodup →
-      f (⟨toGenSnap snap :: sq, toGenRepMap acc⟩, n) =
-        .ok (.next (⟨sq, toGenRepMap (mergeSnap acc snap)⟩, n + snap.length)))
+      ∃ n', f (⟨toGenSnap snap :: sq, toGenRepMap acc⟩, n) =
+        .ok (.next (⟨sq, toGenRepMap (mergeSnap acc snap)⟩, n')))
     (q : List (List (Addr × Counters))) (acc : List (Addr × Counters)) (n fuel : Nat)
     (hfuel : q.length < fuel) (h : (acc.map (·.1)).Nodup) :
     ∃ n', Rs.whileFuel fuel (⟨q.map toGenSnap, toGenRepMap acc⟩, n) c f =
@@ -162,33 +180,36 @@ theorem outer_loop (c : Gen.Reporter × Nat → Res Bool) (f : Gen.Reporter × N
   induction q generalizing acc n fuel with
   | nil =>
     obtain ⟨k, rfl⟩ : ∃ k, fuel = k + 1 := ⟨fuel - 1, by simp only [List.length_nil] at hfuel; omega⟩
-    refine ⟨n, ?_⟩
-    rw [List.map_nil, whileFuel_succ_true _ _ _ _ (hc _), hnil]
+    obtain ⟨n', hn'⟩ := hnil (toGenRepMap acc) n
+    refine ⟨n', ?_⟩
+    rw [List.map_nil, whileFuel_succ_true _ _ _ _ (hc _), hn']
     rfl
   | cons snap rest ih =>
     obtain ⟨k, rfl⟩ : ∃ k, fuel = k + 1 := ⟨fuel - 1, by omega⟩
     simp only [List.length_cons] at hfuel
-    obtain ⟨n', hn'⟩ := ih (mergeSnap acc snap) (n + snap.length) k (by omega) (mergeSnap_nodup snap acc h)
+    obtain ⟨n1, hn1⟩ := hcons snap (rest.map toGenSnap) acc n h
+    obtain ⟨n', hn'⟩ := ih (mergeSnap acc snap) n1 k (by omega) (mergeSnap_nodup snap acc h)
     refine ⟨n', ?_⟩
-    rw [List.map_cons, whileFuel_succ_true _ _ _ _ (hc _), hcons snap _ acc n h]
+    rw [List.map_cons, whileFuel_succ_true _ _ _ _ (hc _), hn1]
     simp only []
     rw [hn', reporterReceive_cons]
 
-/-- the whole function, for any loop condition / loop body / epilogue that do what the generated ones do -/
+/-- the whole function, for any initial counter / loop condition / loop body / epilogue that do what the generated ones
+    do to the reporter -/
 theorem drain_shape (c : Gen.Reporter × Nat → Res Bool) (f : Gen.Reporter × Nat → Res (Rs.Step (Gen.Reporter × Nat)))
     (K : Gen.Reporter × Nat → Res Gen.Reporter)
     (hc : ∀ s, c s = .ok true)
-    (hnil : ∀ m n, f (⟨[], m⟩, n) = .ok (.brk (⟨[], m⟩, n)))
+    (hnil : ∀ m n, ∃ n', f (⟨[], m⟩, n) = .ok (.brk (⟨[], m⟩, n')))
     (hcons : ∀ (snap : List (Addr × Counters)) (sq : List (List Gen.ClientStats)) (acc : List (Addr × Counters)) (n : Nat),
       (acc.map (·.1)).Nodup →
-      f (⟨toGenSnap snap :: sq, toGenRepMap acc⟩, n) =
-        .ok (.next (⟨sq, toGenRepMap (mergeSnap acc snap)⟩, n + snap.length)))
+      ∃ n', f (⟨toGenSnap snap :: sq, toGenRepMap acc⟩, n) =
+        .ok (.next (⟨sq, toGenRepMap (mergeSnap acc snap)⟩, n')))
     (hK : ∀ r n, K (r, n) = .ok r)
-    (q : List (List (Addr × Counters))) (acc : List (Addr × Counters)) (fuel : Nat)
+    (q : List (List (Addr × Counters))) (acc : List (Addr × Counters)) (n0 fuel : Nat)
     (hfuel : q.length < fuel) (h : (acc.map (·.1)).Nodup) :
-    (Rs.whileFuel fuel (⟨q.map toGenSnap, toGenRepMap acc⟩, 0) c f).bind K =
+    (Rs.whileFuel fuel (⟨q.map toGenSnap, toGenRepMap acc⟩, n0) c f).bind K =
       .ok ⟨[], toGenRepMap (reporterReceive acc q)⟩ := by
-  obtain ⟨n', hn'⟩ := outer_loop c f hc hnil hcons q acc 0 fuel hfuel h
+  obtain ⟨n', hn'⟩ := outer_loop c f hc hnil hcons q acc n0 fuel hfuel h
   rw [hn', Res.bind_ok, hK]
 
 end ReporterAux
@@ -210,18 +231,18 @@ theorem receive_client_stats_eq (acc : List (Addr × Counters)) (q : List (List 
       .ok ⟨[], toGenRepMap (reporterReceive acc q)⟩ := by
   unfold Gen.Reporter.receive_client_stats
   simp only [Res.bind_eq, Res.pure_eq]
-  refine drain_shape _ _ _ ?_ ?_ ?_ ?_ q acc _ (by simp) h
+  refine drain_shape _ _ _ ?_ ?_ ?_ ?_ q acc _ _ (by simp) h
   · intro s
     simp
   · intro m n
-    rfl
+    exact ⟨_, rfl⟩
   · intro snap sq acc n hn
     simp only [List.head?_cons, List.tail_cons]
-    rw [inner_loop _ ?_ snap acc sq n hn]
-    · rfl
-    · intro a d acc sq n hn
-      obtain ⟨c, h1, h2⟩ := idx_modify_ensure acc a d "reporter.rs:receive_client_stats:entry#1" hn
-      simp only [ip_addr_toGenClient, StatsAux.client_new_eq, Res.bind_ok, h1, client_stats_merge_eq, h2]
+    refine inner_loop_bind _ ?_ _ snap acc sq n hn
+    intro a d acc sq n hn
+    obtain ⟨c, h1, h2⟩ := idx_modify_ensure acc a d "reporter.rs:receive_client_stats:entry#1" hn
+    simp only [ip_addr_toGenClient, StatsAux.client_new_eq, Res.bind_ok, h1, client_stats_merge_eq, h2]
+    exact ⟨_, rfl⟩
   · intro r n
     simp only []
     split <;> rfl
